@@ -108,7 +108,8 @@ Init ==
         /\ flags = NoFlags
         /\ rg = [n \in Names |-> TRUE]             \* SuperNet.__init__ sets train_selection = True
         /\ \E hs, gs \in [Blocks -> BOOLEAN] :      \* SuperNetModule(gumbel_softmax=, hard_softmax=) PER BLOCK
-              opt = [k \in Blocks |-> OptRec(1000, hs[k], gs[k], FALSE)]
+              /\ (Hetero /\ Part = "ctl" => \A k \in Blocks : ~hs[k] /\ ~gs[k])   \* options play no role there
+              /\ opt = [k \in Blocks |-> OptRec(1000, hs[k], gs[k], FALSE)]
 
 Step(a) ==
     /\ rg'    = [n \in Names |-> NextRg(Impl, O(n).c, Group(O(n).c), O(n).l, O(n).q, rg[n], a)]
